@@ -16,7 +16,7 @@ from typing import Any
 from sim import corpus, histsim, kit, project, runner
 
 PROP = "C02"
-FAMILY = {"hist": 2400, "stall": 300}  # finite scenario families (members are independent of VERIF_SEED)
+FAMILY = {"hist": 900, "stall": 120}  # finite scenario families (members are independent of VERIF_SEED)
 SOFT = ("soft",)  # known classes: keep looking for others
 
 
